@@ -58,8 +58,9 @@ fn real_main(args: &[String]) -> i32 {
             only_scenario: opt(args, "--only-scenario").map(|s| s.to_string()),
             only_run: opt(args, "--only-run").and_then(|s| s.parse().ok()),
             only_first: opt(args, "--only-first").and_then(|s| s.parse().ok()),
+            resume: opt(args, "--resume").and_then(|s| s.split_once(',').and_then(|(a, b)| b.parse().ok().map(|n| (a.to_string(), n)))),
             trace_first: opt(args, "--trace-first").and_then(|s| s.parse().ok()).unwrap_or(0),
-            watchdog_secs: opt(args, "--watchdog").and_then(|s| s.parse().ok()).unwrap_or(30),
+            watchdog_secs: opt(args, "--watchdog").and_then(|s| s.parse().ok()).unwrap_or(10),
         };
         return driver::worker_main(a);
     }
